@@ -98,7 +98,7 @@ func runC02(c *Ctx) {
 		e.Run()
 	}
 	c.Meta(map[string]interface{}{
-		"rule": "every state reached by BFS over the contents alphabet (ties, in-place updates, deletions, reloads, search-delete) is swept: every field path x every operator x every probe (stored values, neighbours, extremes, absent), 5 regex patterns per string field, all And/Or pairs over a 12-atom menu and depth-2 chains over a sub-menu; Len, Collect set and duplicates compared with a linear scan of the reference model; the handle state must be unchanged by queries. Non-trivial = states holding >= 2 objects.",
+		"rule":                  "every state reached by BFS over the contents alphabet (ties, in-place updates, deletions, reloads, search-delete) is swept: every field path x every operator x every probe (stored values, neighbours, extremes, absent), 5 regex patterns per string field, all And/Or pairs over a 12-atom menu and depth-2 chains over a sub-menu; Len, Collect set and duplicates compared with a linear scan of the reference model; the handle state must be unchanged by queries. Non-trivial = states holding >= 2 objects.",
 		"query_trees_per_state": len(trees),
 		"configs":               cfgs,
 		"depth":                 depth,
@@ -170,7 +170,7 @@ func runC03(c *Ctx) {
 		e.Run()
 	}
 	c.Meta(map[string]interface{}{
-		"rule": "BFS over histories specialised to key collisions: two unique fields (string with upper: case variants collide; int64 incl. two values differing only beyond 2^53), 5 key classes, updates onto foreign/own/released keys, batches with internal conflicts, reopen/abandon anywhere. Each call's accept/reject decision is compared with the reference (IsUnique iff a different stored object holds the canonical value) in both directions; invariant on All() in every state. Non-trivial = histories ending in a write.",
+		"rule":    "BFS over histories specialised to key collisions: two unique fields (string with upper: case variants collide; int64 incl. two values differing only beyond 2^53), 5 key classes, updates onto foreign/own/released keys, batches with internal conflicts, reopen/abandon anywhere. Each call's accept/reject decision is compared with the reference (IsUnique iff a different stored object holds the canonical value) in both directions; invariant on All() in every state. Non-trivial = histories ending in a write.",
 		"configs": cfgs, "depth": depth,
 	})
 }
